@@ -197,6 +197,9 @@ func cmdCheck(args []string) int {
 	if len(specs.errs) > 0 {
 		return failClosed(*verif, *prop, *tier, seed, "contracts", strings.Join(specs.errs, "\n"), t0)
 	}
+	if v := os.Getenv("GOVC_PRUNE_AFTER"); v != "" {
+		pruneAfter, _ = strconv.Atoi(v)
+	}
 	if os.Getenv("GOVC_FORKS") != "" {
 		forkStats = map[string]int{}
 		defer func() {
@@ -242,6 +245,10 @@ func cmdCheck(args []string) int {
 			continue
 		}
 		if *only != "" && !strings.Contains(sp.Target, *only) {
+			continue
+		}
+		if sp.Trusted {
+			ex.note("trusted contract (assumed, body not verified): " + sp.Target)
 			continue
 		}
 		if sp.Thorough && *tier != "thorough" {
